@@ -15,12 +15,13 @@ LEVEL = 'exploration'
 SHARDS = {'quick': 4, 'thorough': 16}
 TIMEOUT = {'quick': 300, 'thorough': 3000}
 MAXN = {'quick': 5, 'thorough': 7}
+N_BIG = {'quick': 40, 'thorough': 3000}         # scale regime: 40-130 systems, 70-100 timesteps with one change each
 N_RANDOM = {'quick': 2500, 'thorough': 500000}
 RULE = ('cases: (a) exhaustive: n in 2..N systems x priority pattern {all distinct, one tie, pairs of ties, all equal} x actor position x '
         'action {clean_up self; remove each earlier system; remove each later system; replace each other system by a different object under the same id (same / top / bottom priority); remove and re-register the SAME object (each system incl. the actor itself, same / top / bottom priority); do two of these within one execute() (e.g. unregister itself and register a higher-priority system); register a new system with priority above all / '
         'just above the actor / equal / just below / below all} x action timestep {0,1}, one action per case, followed by two quiet '
         'steps that must follow the new set\'s priority order, each case advanced both by single execute_systems() calls and by ONE '
-        'model.execute(n) call covering the whole block; (b) random: 3-7 systems with 2-3 actors acting in the same timestep. '
+        'model.execute(n) call covering the whole block; (c) scale regime: 40-130 systems over 70-100 timesteps with one change per timestep (long removal-only stretches, registrations into long queues); (b) random: 3-7 systems with 2-3 actors acting in the same timestep. '
         'Oracle per action step: nobody twice; every system registered for the whole step exactly once and mutually in '
         '(descending priority, registration) order; a system removed before its turn zero times; a system registered mid-step 0 or 1 '
         'times. Non-trivial: the system set really changed during a step; distinct by (priorities, actor positions, actions).')
@@ -28,7 +29,7 @@ ASSUMPTIONS = ['whether a system registered mid-timestep first runs in that time
                'the oracle is computed from the script: a system removed before its turn does not perform its own scripted action']
 FLOORS = {'quick': {'action_steps': 2400, 'act_cleanup': 60, 'act_remove_earlier': 90, 'act_remove_later': 90, 'act_add_higher': 120,
                     'act_add_equal': 60, 'act_add_lower': 120, 'act_replace_earlier': 200, 'act_replace_later': 200, 'act_readd_self': 200,
-                    'act_readd_earlier': 200, 'act_compound': 500, 'act_readd_later': 200, 'blocks_multi': 2000, 'blocks_single': 2000, 'removed_via_clean_up': 300, 'quiet_steps': 4000, 'two_actor_steps': 1000,
+                    'act_readd_earlier': 200, 'act_compound': 500, 'act_readd_later': 200, 'blocks_multi': 2000, 'blocks_single': 2000, 'removed_via_clean_up': 300, 'big_histories': 20, 'big_history_changes': 1000, 'quiet_steps': 4000, 'two_actor_steps': 1000,
                     'reach:Core.SystemManager.execute_systems': 5000, 'reach:Core.System.clean_up': 60},
           'thorough': {'action_steps': 100000, 'two_actor_steps': 80000}}
 EXHAUSTIVE = {}
@@ -322,8 +323,63 @@ def case_rand(ctx, case):
                     'order_after': w.order()})
 
 
+
+def case_big(ctx, case):
+    """Scale regime: 40-130 systems, 70-100 timesteps, one scripted change per timestep (removal-heavy stretches without any registration,
+    registrations of higher-priority systems into long queues, re-registrations), advanced in blocks of single steps or execute(n)."""
+    rng = ctx.rng('big', case['i'])
+    n = rng.choice([40, 66, 100, 130])
+    levels = rng.sample(range(-4, 5), rng.randint(2, 5))
+    prios = [rng.choice(levels) for _ in range(n)]
+    w = World(ctx, prios, flavour=rng.randint(0, 5))
+    T = rng.randint(70, 100)
+    mode_mix = rng.choice(['removals', 'pure-removals', 'mixed'])
+    if mode_mix == 'pure-removals':
+        T = min(100, n - 8)
+    alive = w.order()                  # current execution order; without registrations the relative order never changes
+    new_id = 0
+    for t in range(T):
+        if mode_mix == 'pure-removals':
+            # one removal per timestep and nothing else: an earlier system removes a later one that has not had its turn yet
+            i, j = sorted(rng.sample(range(len(alive)), 2))
+            w.script[(alive[i], t)] = ('remove', alive[j])
+            del alive[j]
+            continue
+        if rng.random() < 0.15 or len(alive) < 6:
+            continue
+        actor = rng.choice(alive)
+        others = [a for a in alive if a != actor]
+        kind = 'remove' if mode_mix == 'removals' and t < 70 else rng.choice(['remove', 'remove', 'cleanup', 'add', 'add', 'readd', 'replace'])
+        if kind == 'remove':
+            tgt = rng.choice(others)
+            act = ('remove', tgt)
+            alive.remove(tgt)
+        elif kind == 'cleanup':
+            act = ('cleanup',)
+            alive.remove(actor)
+        elif kind == 'add':
+            new_id += 1
+            act = ('add', f'n{new_id}', rng.choice(levels) + rng.choice([-1, 0, 1, 1, 6]))
+        elif kind == 'readd':
+            act = ('readd', rng.choice(alive), rng.choice(levels) + rng.choice([-1, 0, 1]))
+        else:
+            act = ('replace', rng.choice(others), rng.choice(levels))
+        w.script[(actor, t)] = act
+    t = 0
+    while t < T + 2:
+        k = min(rng.choice([1, 1, 3, 10, 40]), T + 2 - t)
+        w.run_block(k, rng.choice(['single', 'multi']), f'big history: {n} systems, block of {k} timesteps from t={t}')
+        t += k
+    ctx.count('big_histories')
+    ctx.count('big_history_changes', len(w.changes))
+    ctx.count('action_steps', len({c['t'] for c in w.changes}))
+    ctx.distinct(('big', n, T, mode_mix, case['i']))
+    if case['i'] < 1:
+        ctx.sample({'kind': 'big history', 'systems': n, 'timesteps': T, 'style': mode_mix, 'changes': len(w.changes)})
+
+
 def run_case(ctx, case):
-    (case_ex if case['kind'] == 'ex' else case_rand)(ctx, case)
+    {'ex': case_ex, 'rand': case_rand, 'big': case_big}[case['kind']](ctx, case)
 
 
 def run(ctx):
@@ -337,6 +393,9 @@ def run(ctx):
     for i in range(N_RANDOM[ctx.tier]):
         if ctx.mine(i) and not ctx.full():
             ctx.run_case({'kind': 'rand', 'i': i}, run_case)
+    for i in range(N_BIG[ctx.tier]):
+        if ctx.mine(i) and not ctx.full():
+            ctx.run_case({'kind': 'big', 'i': i}, run_case)
 
 
 def replay(ctx, case):
